@@ -33,6 +33,9 @@ CHECKS["C19"]=dict(engine="cycle", design="5/C19", note=_cyc_note,
 CHECKS["C09"]=dict(engine="node", design="5/C09", note="Trusted: RLIMIT_FSIZE and strace syscall injection behave as documented in this kernel; the update runs without the injector callbacks (only the store is at stake); no power-loss model (kill / partial write / full disk only).",
   text="Crash-point and write-fault injection below the process, at the syscall boundary, against the real TargetsManager on a real directory: for every byte offset N of small stores (complete sub-sweep) and drawn N of large ones the store write is cut by RLIMIT_FSIZE; the write Load performs at start is cut likewise; the same update runs in a separate OS process with a cut and is SIGKILLed by strace on entry to every syscall touching the store files; after each fault a fresh start must succeed and resume the acknowledged or the interrupted assignment, and a second start must agree. Seeded search over assignment pairs (escaping, sizes, states, idle transitions, old-format store).")
 
+CHECKS["C11"]=dict(engine="node", design="5/C11", note=_node_note+" Both texts are compared as structs loaded by the vendored Prometheus library.",
+  text="Seeded search over histories of configuration changes and assignments on a real sidecar (push and file mode): configurations are composed from a catalogue covering every auth kind, SD kind, limits, relabel programs and remote/alerting sections with unique secret tokens, rendered in drawn YAML styles; after every operation the injector's file is loaded with config.Load and compared field-wise with latest config x latest assignment (jobs and order, static entries per assigned target, proxy/http/no basic-auth/no TLS, no job secret in the text, ingestion settings kept, global/rule/alerting/remote sections deeply equal including secret values).")
+
 NOT_YET = {
 }
 
